@@ -756,6 +756,7 @@ type muxRun struct {
 	registrars []*registrar
 	pre      *registrar
 	monitor  *monitor
+	ref      *refResult // sequential registry scenarios: the history's final state against a fresh registration of what is live
 }
 
 type allDone struct {
@@ -971,6 +972,9 @@ func runMuxScenario(t *testing.T, sc *MuxScenario, tape *core.Tape) (mr *muxRun)
 		sim.Abort()
 		for _, rs := range mr.reqs {
 			rs.q.cancel()
+		}
+		if sc.Sequential && mr.stop == core.StopDone && len(mr.registrars) == 1 {
+			mr.ref = mr.referenceCheck(world)
 		}
 		mr.stopBackends()
 		synctest.Wait()
